@@ -115,6 +115,39 @@ func hasUserCode(s *stack.Stack) bool {
 	return false
 }
 
+// mainCount, allStdlibClass, hasKnownUserClass: for the law "with as many package-main frames, a stack with module,
+// GOPATH or module-cache frames comes before a stack whose frames are all of the standard-library class".
+func mainCount(s *stack.Stack) int {
+	n := 0
+	for i := range s.Calls {
+		if s.Calls[i].Func.IsPkgMain {
+			n++
+		}
+	}
+	return n
+}
+
+func allStdlibClass(s *stack.Stack) bool {
+	if len(s.Calls) == 0 {
+		return false
+	}
+	for i := range s.Calls {
+		if s.Calls[i].Location != stack.Stdlib {
+			return false
+		}
+	}
+	return true
+}
+
+func hasKnownUserClass(s *stack.Stack) bool {
+	for i := range s.Calls {
+		if l := s.Calls[i].Location; l == stack.GoMod || l == stack.GOPATH || l == stack.GoPkg {
+			return true
+		}
+	}
+	return false
+}
+
 func allStdlib(s *stack.Stack) bool {
 	if len(s.Calls) == 0 {
 		return false
@@ -247,6 +280,9 @@ func runC13(r *core.Run) {
 			// stated consequence
 			if allStdlib(&u[a].Sig.Stack) && hasUserCode(&u[b].Sig.Stack) && !less[b][a] {
 				report("user-code-before-stdlib", a, b)
+			}
+			if allStdlibClass(&u[a].Sig.Stack) && hasKnownUserClass(&u[b].Sig.Stack) && mainCount(&u[b].Sig.Stack) >= mainCount(&u[a].Sig.Stack) && !less[b][a] {
+				report("non-stdlib-code-before-stdlib-class", a, b)
 			}
 			for c := 0; c < n; c++ {
 				if less[a][b] && less[b][c] && !less[a][c] {
